@@ -101,7 +101,8 @@ def record(run_id: str, **ev: Any) -> None:
 
 
 def schema_of(cols: list[dict[str, str]]) -> pa.Schema:
-    return pa.schema([pa.field(c["name"], arrow_type(c["type"])) for c in cols])
+    # a column may carry field-level metadata ("fmeta": {k: v}) — e.g. column comments
+    return pa.schema([pa.field(c["name"], arrow_type(c["type"]), metadata=c.get("fmeta") or None) for c in cols])
 
 
 def batch_of(cols: list[dict[str, str]], rows: dict[str, list[Any]] | int) -> pa.RecordBatch:
